@@ -1851,6 +1851,8 @@ void Exec::run ()
 	const J &cfg = plan.at ("cfg") ;
 	os.clock_off = cfg.geti ("clock", 0) ;
 	os.fd_zero = cfg.geti ("fd0", 0) != 0 ;
+	os.passthrough = opts.passthrough ; os.pt_root = opts.pt_root ; os.pt_synced.clear () ;
+	if (os.passthrough) os.pt_wipe () ;
 	os.trace_io_enabled = opts.io_trace ;
 	os.record_io = opts.record_io ;
 	if (opts.preload) for (auto &kv : *opts.preload) { SimFileP f = os.file (kv.first, true) ; f->data = kv.second ; }
